@@ -215,6 +215,29 @@ CHECKS['C08'] = dict(category='proof', design_ref='DESIGN.md §7 C08, Appendix D
           "the outcomes are stored under the operands' names and nothing else changes; a refused step-adding call "
           "leaves no step behind; uses() stores deep copies. By induction over the steps bake equals the eager fold."))
 
+RECIPE_TECH = ('contract-based deductive verification: bookkeeping obligations of the real bake loop body per step kind on an arbitrary recipe state (snapshots, objects-used, substances-used, trash) + the real tracker code executed on abstract step records satisfying that bookkeeping invariant, result proved equal to the specification (telescoped ledger) over contents of arbitrary size')
+CHECKS['C09'] = dict(category='proof', design_ref='DESIGN.md §7 C09, Appendix D', technique=RECIPE_TECH,
+    note=COMMON_NOTE + (" Two layers: (1) BOOK — per step kind, bake records [state before, state after] of the touched "
+                        "names, the names used, substances_used covering every changed substance, and trash = discarded "
+                        "amounts (unbounded in the recipe history, induction step); (2) get_substance_used on step lists of "
+                        "1..3 abstract records satisfying BOOK (bounded in the number of records; contents, substance, "
+                        "units symbolic). The tracker obligations are discharged on the BOOK facts instantiated at the "
+                        "queried substance (complete for that substance). Display rounding is the uninterpreted rnd."),
+    text=("get_substance_used(substance, timeframe, unit, destinations) equals rnd(display precision, convert(sum "
+          "over exactly the steps of the timeframe of [gain of the destinations + discarded amount])) for whole-recipe "
+          "and named stages, default (all plates) and explicit destination sets, solids / liquids / enzymes and their "
+          "units; a net decrease raises ValueError and nothing else does; amounts over consecutive stages add up to the "
+          "amount over their union (before display rounding); trackers write nothing."))
+CHECKS['C15'] = dict(category='proof', design_ref='DESIGN.md §7 C15, Appendix D', technique=RECIPE_TECH,
+    note=COMMON_NOTE + (" Same two layers as C09. Per-well answers for plates (numpy.vectorize with otypes, numpy.round: "
+                        "T3 models the dtype rule and that the builtin round() is undefined for arrays). `Flows are never "
+                        "negative` is not proved here: it needs the sign facts of the container contracts (C01/C02/C03) "
+                        "about every step, which the abstract records do not carry."),
+    text=("get_amount_remaining(object, timeframe, unit, mode) equals the total content of the object (per well for "
+          "plates) in the first/last snapshot touching it inside the timeframe; get_container_flows returns per well "
+          "the sum of the gains as destination (in) and of the losses as source plus discarded amounts (out), and "
+          "inflow - outflow = remaining(end) - remaining(start); for 5 program shapes x stages x objects x units."))
+
 NOT_YET = "check not built yet in this round (under construction; not claimed)"
 NOT_APPLICABLE = {}
 
